@@ -8,11 +8,12 @@ print("| property | theorems (`FcProofs/Props`) | `_partial` | known findings | 
 print("|---|---|---|---|---|---|")
 for n in range(1, 21):
     p = f"C{n:02d}"
-    f = os.path.join(VERIF, "lean", "FcProofs", "Props", f"{p}.lean")
     names = []
-    if os.path.exists(f):
-        src = re.sub(r"/-.*?-/", "", open(f).read(), flags=re.S)
-        names = re.findall(r"^\s*theorem\s+(" + p + r"_\w+)", src, flags=re.M)
+    d = os.path.join(VERIF, "lean", "FcProofs", "Props")
+    for fn in sorted(os.listdir(d)):
+        if fn == f"{p}.lean" or (fn.startswith(p + "_") and fn.endswith(".lean")):
+            src = re.sub(r"/-.*?-/", "", open(os.path.join(d, fn)).read(), flags=re.S)
+            names += re.findall(r"^\s*theorem\s+(" + p + r"_\w+)", src, flags=re.M)
     part = [x for x in names if x.endswith("_partial")]
     known = sorted({e["id"] for e in kf if e["property"] == p and e["status"] == "known"})
     fixed = sorted({e["id"] for e in kf if e["property"] == p and e["status"] == "fixed"})
